@@ -56,7 +56,13 @@ def reference(desc, role, seq):
             strand = 0
         elif sk in (-1, 0, 1):
             strand = sk
-        pal = par[0] == "rep" or rcs(par[1]) == par[1] if par[0] == "rep" or set(par[1]) <= set("ACGT") else None
+        IUC = dict(zip("ACGTNWSMKRYBDHV", "TGCANWSKMYRVHDB"))       # complements of the IUPAC codes
+        if par[0] == "rep":
+            pal = True
+        elif set(par[1]) <= set(IUC):
+            pal = "".join(IUC[c] for c in reversed(par[1])) == par[1]
+        else:
+            pal = None
         spans_f = [(i, i + k) for i in range(a, b - k + 1) if occ(par, seq, i)]
         spans_r = [(i, i + k) for i in range(a, b - k + 1) if occ(par, rcs(seq[i:i + k]), 0)]
         if strand == 1:
